@@ -7,6 +7,7 @@ Large random range sets are recorded and validated against TraceRange.tla with t
 arbitrary text is checked for outcome class and canonical form.
 """
 import random
+import re
 import sys
 
 from .. import tlc, graph, common, tracecheck
@@ -29,6 +30,9 @@ def spec_text(s):
 
 def render(specs, variant):
     parts = [spec_text(s) for s in specs]
+    if variant == 4:   # numbers with leading zeros denote the same positions
+        parts = [re.sub(r"\d+", lambda m: "00" + m.group(0), p) for p in parts]
+        return "bytes=" + ",".join(parts)
     if variant == 0:
         return "bytes=" + ",".join(parts)
     if variant == 1:
@@ -132,7 +136,7 @@ def run(ctx):
             raise common.MachineryError("model outcome outside the allowed set")
         exp_result = [tuple(x) for x in st["result"]]
         n += 1
-        for variant in range(4):
+        for variant in range(5):
             header = render(specs, variant)
             out, result = call(header, size)
             ctx.count()
